@@ -796,7 +796,7 @@ def run(ctx):
     ctx.check_theorems()
     try:
         process(ctx, evaluate(ctx, corpus_cases()))
-        ncases = ctx.size(1200, 16000)
+        ncases = ctx.size(1000, 16000)
         cases = [gen_case(ctx.rng, max_procs=ctx.rng.choice([6, 10, 16, 16])) for _ in range(ncases)]
         for c in cases[:2]:
             ctx.sample(c)
